@@ -19,14 +19,25 @@ fn flags_of(f: &str, no_opt: bool) -> Flags {
     fl
 }
 
-/// Compile through the public stage functions; None = parse error.
+/// Compile through the public stage functions.
 pub fn compile(p: &[u32], f: &str, no_opt: bool) -> Result<verif::CompiledRegex, String> {
+    compile_stages(p, f, no_opt).map(|x| x.0)
+}
+
+/// Compile and also return the token dumps of the IR before and after optimization.
+pub fn compile_stages(p: &[u32], f: &str, no_opt: bool) -> Result<(verif::CompiledRegex, String, Option<String>), String> {
     let fl = flags_of(f, no_opt);
     let mut ire = backends::try_parse(p.iter().copied(), fl).map_err(|e| e.text)?;
+    let mut ir0 = String::new();
+    node_tokens(&ire.node, &mut ir0);
+    let mut ir1 = None;
     if !no_opt {
         backends::optimize(&mut ire);
+        let mut s = String::new();
+        node_tokens(&ire.node, &mut s);
+        ir1 = Some(s);
     }
-    Ok(backends::emit(&ire))
+    Ok((backends::emit(&ire), ir0, ir1))
 }
 
 #[derive(Clone, Copy, PartialEq)]
@@ -100,8 +111,8 @@ fn pat_hex(p: &[u32]) -> String {
 
 /// Emit one case: program (opt or no_opt), then H/R records for the haystacks.
 fn emit_case(out: &mut String, id: &str, p: &[u32], f: &str, no_opt: bool, hays: &[(String, bool)], budget: u64, all_starts: bool) -> bool {
-    let cr = match panic::catch_unwind(|| compile(p, f, no_opt)) {
-        Ok(Ok(cr)) => cr,
+    let (cr, ir0, ir1) = match panic::catch_unwind(|| compile_stages(p, f, no_opt)) {
+        Ok(Ok(x)) => x,
         Ok(Err(_)) => return false,
         Err(_) => {
             writeln!(out, "C {} {} {} {}\nX compile-panic\nE", id, pat_hex(p), if f.is_empty() { "-" } else { f }, no_opt as u8).unwrap();
@@ -109,6 +120,18 @@ fn emit_case(out: &mut String, id: &str, p: &[u32], f: &str, no_opt: bool, hays:
         }
     };
     writeln!(out, "C {} {} {} {}", id, pat_hex(p), if f.is_empty() { "-" } else { f }, no_opt as u8).unwrap();
+    writeln!(out, "N0 {}", ir0).unwrap();
+    if let Some(s) = ir1 {
+        writeln!(out, "N1 {}", s).unwrap();
+    }
+    {
+        let mut nl = format!("NM {} {}", cr.flags.multiline as u8, cr.group_names.len());
+        for n in cr.group_names.iter() {
+            nl.push(' ');
+            nl.push_str(&hex(n.as_bytes()));
+        }
+        writeln!(out, "{}", nl).unwrap();
+    }
     program_block(&cr, out);
     let re = Regex::from(cr);
     for (t, ascii_only) in hays {
@@ -223,8 +246,8 @@ fn cmd_cases(args: &[String]) {
 }
 
 fn emit_case_at(out: &mut String, id: &str, p: &[u32], f: &str, no_opt: bool, t: &str, ascii_only: bool, start: usize, budget: u64) -> bool {
-    let cr = match panic::catch_unwind(|| compile(p, f, no_opt)) {
-        Ok(Ok(cr)) => cr,
+    let (cr, ir0, ir1) = match panic::catch_unwind(|| compile_stages(p, f, no_opt)) {
+        Ok(Ok(x)) => x,
         Ok(Err(_)) => return false,
         Err(_) => {
             writeln!(out, "C {} {} {} {}\nX compile-panic\nE", id, pat_hex(p), if f.is_empty() { "-" } else { f }, no_opt as u8).unwrap();
@@ -232,6 +255,18 @@ fn emit_case_at(out: &mut String, id: &str, p: &[u32], f: &str, no_opt: bool, t:
         }
     };
     writeln!(out, "C {} {} {} {}", id, pat_hex(p), if f.is_empty() { "-" } else { f }, no_opt as u8).unwrap();
+    writeln!(out, "N0 {}", ir0).unwrap();
+    if let Some(s) = ir1 {
+        writeln!(out, "N1 {}", s).unwrap();
+    }
+    {
+        let mut nl = format!("NM {} {}", cr.flags.multiline as u8, cr.group_names.len());
+        for n in cr.group_names.iter() {
+            nl.push(' ');
+            nl.push_str(&hex(n.as_bytes()));
+        }
+        writeln!(out, "{}", nl).unwrap();
+    }
     program_block(&cr, out);
     let re = Regex::from(cr);
     writeln!(out, "H {} {}", hex(t.as_bytes()), start).unwrap();
